@@ -16,7 +16,7 @@ from ..fa import FA
 from ..loader import AnalysisError
 from .valeq import check_typed_identity
 from .ladders import extract_ladder, check_ladder_order, repo_subclass_pairs
-from .c16 import (subst_names, FlatInit, is_empty_value, outliving_state_reads, canon_conj, conds, fexpand, ftext, is_copy_of, lit_expr, map_shape, origin, same_def, single_def, strip_cast, _ref_name)
+from .c16 import (subst_names, FlatInit, is_empty_value, never_rebound_display, outliving_state_reads, canon_conj, conds, fexpand, ftext, is_copy_of, lit_expr, map_shape, origin, same_def, single_def, strip_cast, _ref_name)
 
 AH = "reference.ArgumentHasher"
 FRA = "reference.FunctionReferenceWithArguments"
@@ -976,6 +976,16 @@ def _annotated_fra(fi, name, element):
     return False
 
 
+def _instance_dict_of(e):
+    """the object whose attribute dictionary `e` is (`obj.__dict__`, `vars(obj)`), or None"""
+    e = strip_cast(e)
+    if isinstance(e, ast.Attribute) and e.attr == "__dict__":
+        return e.value
+    if isinstance(e, ast.Call) and isinstance(e.func, ast.Name) and e.func.id == "vars" and len(e.args) == 1 and not e.keywords:
+        return e.args[0]
+    return None
+
+
 def _key_field_stores(fa):
     """every statement of the function that binds a key field of some object: [(receiver expr, field, stmt)] — plain
     attribute assignment, setattr / object.__setattr__ with a literal name, a store into / update of the instance __dict__"""
@@ -1004,8 +1014,8 @@ def _key_field_stores(fa):
         for t in flat:
             if isinstance(t, ast.Attribute) and t.attr in DERIVED_FROM:
                 out.append((t.value, t.attr, st))
-            elif isinstance(t, ast.Subscript) and isinstance(t.value, ast.Attribute) and t.value.attr == "__dict__" and A.const_str(t.slice) in DERIVED_FROM:
-                out.append((t.value.value, A.const_str(t.slice), st))
+            elif isinstance(t, ast.Subscript) and _instance_dict_of(t.value) is not None and A.const_str(t.slice) in DERIVED_FROM:
+                out.append((_instance_dict_of(t.value), A.const_str(t.slice), st))
         if isinstance(st, ast.Expr) and isinstance(st.value, ast.Call):
             c = st.value
             d = A.call_dotted(c) or ""
@@ -1014,13 +1024,16 @@ def _key_field_stores(fa):
                 out.append((c.args[0], A.const_str(c.args[1]), st))
             elif A.call_attr(c) in ("__setattr__", "__delattr__") and len(c.args) >= 1 and A.const_str(c.args[0]) in DERIVED_FROM and A.call_recv(c) is not None:
                 out.append((A.call_recv(c), A.const_str(c.args[0]), st))
-            elif A.call_attr(c) == "update" and isinstance(A.call_recv(c), ast.Attribute) and A.call_recv(c).attr == "__dict__":
+            elif A.call_attr(c) in ("__setitem__", "setdefault", "pop") and A.call_recv(c) is not None and _instance_dict_of(A.call_recv(c)) is not None \
+                    and c.args and A.const_str(c.args[0]) in DERIVED_FROM:
+                out.append((_instance_dict_of(A.call_recv(c)), A.const_str(c.args[0]), st))
+            elif A.call_attr(c) == "update" and A.call_recv(c) is not None and _instance_dict_of(A.call_recv(c)) is not None:
                 names = [k.arg for k in c.keywords if k.arg in DERIVED_FROM]
                 for a in c.args:
                     if isinstance(a, ast.Dict):
                         names += [A.const_str(k) for k in a.keys if k is not None and A.const_str(k) in DERIVED_FROM]
                 for nm_ in names:
-                    out.append((A.call_recv(c).value, nm_, st))
+                    out.append((_instance_dict_of(A.call_recv(c)), nm_, st))
             elif A.call_attr(c) == "__init__" and A.call_recv(c) is not None and not (isinstance(A.call_recv(c), ast.Call) and A.call_dotted(A.call_recv(c)) == "super"):
                 # the object is put through its constructor again: every field is made anew
                 for nm_ in DERIVED_FROM:
@@ -1035,6 +1048,10 @@ def derived_fields_clause(ck, rule):
     has to bind every field derived from it again afterwards, on every path to its end; otherwise the object shows the new
     value while it is keyed, stored and served under the old one."""
     n_fn = n_st = 0
+    try:
+        computed = set(ck.repo.cls("reference." + FRA_CLS).methods)
+    except AnalysisError:
+        computed = set()
     for fi in ck.repo.all_funcs():
         if not any((isinstance(n, ast.Attribute) and n.attr in DERIVED_FROM and isinstance(n.ctx, (ast.Store, ast.Del))) or
                    (isinstance(n, ast.Constant) and isinstance(n.value, str) and n.value in DERIVED_FROM) or
@@ -1079,6 +1096,8 @@ def derived_fields_clause(ck, rule):
                 n_st += 1
                 stale = []
                 for g in DERIVED_FROM[field]:
+                    if g in computed:
+                        continue    # computed on demand from the other fields: nothing is kept that could go stale
                     again = {j for (f2, _s2, j) in lst if f2 == g}
                     if not fa.cfg.always_reaches(i, again, [fa.cfg.exit]):
                         stale.append(g)
@@ -1276,6 +1295,41 @@ def _outlives_call(fa, t, at, value_params, depth=4):
     return None
 
 
+def _never_written_table(fa, t):
+    """is the container `t` a table of the program itself: a module-level or class-level name bound once to a display (or a
+    dict / frozenset / tuple / MappingProxyType made from one) that nothing in the module stores into, changes or re-binds?
+    Nothing a call leaves behind can be found in it, so looking a value up in it (a dispatch table, a set of special
+    values) is not a memo."""
+    t = strip_cast(t)
+    mod = fa.fi.module
+    if isinstance(t, ast.Name):
+        name, v = t.id, getattr(mod, "assigns", {}).get(t.id)
+        if v is None or fa.df.reaching(fa.cfg.exit, name):
+            return False
+    elif isinstance(t, ast.Attribute):
+        name = t.attr
+        root = t.value
+        if isinstance(root, ast.Call) and isinstance(root.func, ast.Name) and root.func.id == "type" and len(root.args) == 1:
+            root = root.args[0]
+        if not isinstance(root, ast.Name):
+            return False
+        if root.id in mod.classes:
+            cands = [mod.classes[root.id]]
+        elif fa.fi.cls is not None and fa.fi.params and root.id == fa.fi.params[0]:
+            cands = [fa.fi.cls]
+        else:
+            return False
+        vals = [st.value for ci in cands for st in ci.node.body
+                if (isinstance(st, ast.Assign) and any(isinstance(x, ast.Name) and x.id == name for x in st.targets))
+                or (isinstance(st, ast.AnnAssign) and isinstance(st.target, ast.Name) and st.target.id == name and st.value is not None)]
+        if len(vals) != 1:
+            return False
+        v = vals[0]
+    else:
+        return False
+    return never_rebound_display(mod, name, v)
+
+
 def values_by_equality_clause(ck, rule, modules):
     """A bound value and its type are the identity of a call: True, 1 and 1.0 are three different arguments.  A dict / set
     lookup compares by Python equality and hash, under which they are one.  So no value of the argument domain may be
@@ -1308,7 +1362,7 @@ def values_by_equality_clause(ck, rule, modules):
             if not vals:
                 continue
             where = _outlives_call(fa, t, ids[0], vp)
-            if not where:
+            if not where or _never_written_table(fa, t):
                 continue
             ck.ob(rule, fa.key(x, "by-equality:" + A.norm(t)), False,
                   "`%s` looks up / keeps an entry of %s, which outlives the call, under a key that holds the argument values %s as Python values: "
